@@ -296,6 +296,50 @@ func runIsoMask(c *core.Ctx) []core.Obligation {
 	} else {
 		b.und("months-30", "-", "iso8601.validate not found")
 	}
+	// ---- fraction separator: the fast path's early rejection must let through exactly the
+	// separators time.Parse accepts before fractional seconds ('.' and ',')
+	{
+		seps := map[int64]bool{}
+		var at ssa.Instruction
+		for _, blk := range parse.Blocks {
+			for _, in := range blk.Instrs {
+				bo, ok := in.(*ssa.BinOp)
+				if !ok || (bo.Op != token.NEQ && bo.Op != token.EQL) {
+					continue
+				}
+				ld, ok := bo.X.(*ssa.UnOp)
+				if !ok {
+					continue
+				}
+				ia, ok := ld.X.(*ssa.IndexAddr)
+				if !ok {
+					continue
+				}
+				if i, isK := constInt(ia.Index); !isK || i != 19 {
+					continue
+				}
+				if k, isK := constInt(bo.Y); isK {
+					seps[k] = true
+					at = bo
+				}
+			}
+		}
+		key := "fraction-separator"
+		switch {
+		case at == nil:
+			b.und(key, c.FuncPos(parse), "no test of the byte that separates seconds from their fraction found")
+		case len(seps) == 2 && seps['.'] && seps[',']:
+			b.ok(key, c.InstrPos(at), "the fast path admits '.' and ',' before the fraction, like time.Parse")
+		default:
+			var got []string
+			for k := range seps {
+				got = append(got, fmt.Sprintf("%q", rune(k)))
+			}
+			sort.Strings(got)
+			b.bad(key, c.InstrPos(at), fmt.Sprintf("the fast path rejects (without falling back to time.Parse) every long timestamp whose 20th byte is not in %v, but time.Parse accepts both '.' and ',' before fractional seconds: Parse and time.Parse disagree on 2021-03-25T21:36:12,5Z", got))
+		}
+	}
+
 	return b.out
 }
 
